@@ -268,6 +268,85 @@ func faultsParse(src []byte, mode string) []faultObs {
 	return out
 }
 
+// faultsPackage: the file decorated as (part of) a package, the way Decorator.ParseDir does it:
+// DecorateNode on an *ast.Package of two files, resolver failing at call k.
+func faultsPackage(src []byte, mode string) []faultObs {
+	second := []byte("package " + packageNameOf(src) + "\n\nimport \"os\"\n\nvar secondFileVar = os.Args\n")
+	run := func(k int, sentinel error) (*dst.Package, string, int, error, string) {
+		var dr resolver.DecoratorResolver
+		var calls func() int
+		if mode == "ident" {
+			d := &failingDR{inner: goast.WithResolver(guess.New()), k: k, err: sentinel}
+			dr, calls = d, func() int { return d.calls }
+		} else {
+			rr := &failingRR{inner: guess.New(), k: k, err: sentinel}
+			dr, calls = goast.WithResolver(rr), func() int { return rr.calls }
+		}
+		fset := token.NewFileSet()
+		pkg := &ast.Package{Name: packageNameOf(src), Files: map[string]*ast.File{}}
+		for name, b := range map[string][]byte{"a.go": src, "b.go": second} {
+			af, err := parser.ParseFile(fset, name, b, parser.ParseComments)
+			if err != nil {
+				return nil, "", 0, err, ""
+			}
+			pkg.Files[name] = af
+		}
+		before := astDigest(pkg.Files["a.go"]) + astDigest(pkg.Files["b.go"])
+		d := decorator.NewDecoratorWithImports(fset, "example.com/local", dr)
+		var out dst.Node
+		var err error
+		msg := guard(func() { out, err = d.DecorateNode(pkg) })
+		same := ""
+		if astDigest(pkg.Files["a.go"])+astDigest(pkg.Files["b.go"]) == before {
+			same = "same"
+		}
+		dp, _ := out.(*dst.Package)
+		return dp, same, calls(), err, msg
+	}
+	digest := func(p *dst.Package) string {
+		if p == nil || p.Files["a.go"] == nil || p.Files["b.go"] == nil {
+			return ""
+		}
+		return treeDigest(p.Files["a.go"]) + treeDigest(p.Files["b.go"])
+	}
+	dp, _, n, err, msg := run(0, nil)
+	if err != nil || msg != "" || n == 0 || dp == nil {
+		return nil
+	}
+	want := digest(dp)
+	var out []faultObs
+	step := 1
+	if n > 12 {
+		step = n / 12
+	}
+	for k := 1; k <= n; k += step {
+		sentinel := fmt.Errorf("sentinel %d: %w", k, errInjected)
+		o := faultObs{Op: "package-" + mode, Calls: n, FailAt: k, ExpectedCalls: -1}
+		dp, same, _, err, msg := run(k, sentinel)
+		if msg != "" {
+			o.Panic, o.Msg = true, msg
+		}
+		o.Err = err != nil
+		o.Wrapped = err != nil && errors.Is(err, sentinel)
+		if dp != nil {
+			o.OutBytes = 1
+		}
+		o.TreeSame = same == "same"
+		dp2, _, _, err2, _ := run(0, nil)
+		o.RetrySame = err2 == nil && digest(dp2) == want
+		out = append(out, o)
+	}
+	return out
+}
+
+func packageNameOf(src []byte) string {
+	f, err := parser.ParseFile(token.NewFileSet(), "", src, parser.PackageClauseOnly)
+	if err != nil || f.Name == nil {
+		return "p"
+	}
+	return f.Name.Name
+}
+
 // syntaxDamage: variants of a source with a recoverable syntax error behind valid code
 func syntaxDamage(src []byte) [][]byte {
 	return [][]byte{
@@ -389,6 +468,10 @@ func checkC17(c *Ctx) {
 			for _, o := range faultsDecorate(f.Src, mode) {
 				all = append(all, o)
 				keys = append(keys, fmt.Sprintf("decorate-%s|%s|fail@%d", mode, f.Path, o.FailAt))
+			}
+			for _, o := range faultsPackage(f.Src, mode) {
+				all = append(all, o)
+				keys = append(keys, fmt.Sprintf("package-%s|%s|fail@%d", mode, f.Path, o.FailAt))
 			}
 			for di, dsrc := range syntaxDamage(f.Src) {
 				for _, o := range faultsParse(dsrc, mode) {
